@@ -32,7 +32,8 @@ def run(ctx):
 # repeating the call in (b) must return the very same object when no fresh symbol is involved.
 from ..absint import AbsRaise, AObj, Unsupported          # noqa: E402
 from ..common import parallel_map                         # noqa: E402
-from .. import proc                                       # noqa: E402
+from .. import proc
+from ..world import World                                       # noqa: E402
 from ..proc import Shape, S, BOOL, INT, REAL              # noqa: E402
 from .. import simpcheck as sc                            # noqa: E402
 import re as _re                                          # noqa: E402
@@ -139,13 +140,22 @@ def _history_shapes():
     # hand out a fresh one
     AV = ("Array", ("type", INT), ("lit", 0, INT), ("dict", (("lit", 1, INT), ("lit", 5, INT))))
     marr = S("marr", ("ARRAY", INT, INT))
-    targets += [("Equals", ("Store", AV, three_, ("lit", 30, INT)), marr),
+    targets += [("And", ("LT", ("lit", 0, INT), x), ("Or", a, ("LT", ("Plus", y, ("lit", 1, INT)), z))),
+                ("Equals", ("Store", AV, three_, ("lit", 30, INT)), marr),
                 ("Equals", ("Select", ("Store", AV, three_, ("lit", 30, INT)), ("lit", 2, INT)), x),
                 ("Equals", AV, marr)]
     history = [("Store", AV, ("lit", 2, INT), ("lit", 20, INT)), ("Equals", ("Store", AV, ("lit", 2, INT), ("lit", 20, INT)), marr),("LT", ("lit", -3, INT), ("lit", 7, INT)), ("Or", kw1, ("Not", kw2)), ("Plus", ("Minus", five, x), three_), ("Plus", ("Minus", ("Plus", x, y), z), ("lit", 1, INT)),
                o, ("And", b, o), ("Not", lt), ("Plus", x, y), ("Iff", a, b), ("Or", ("And", b, lt), c),
                ("exists", [("b", BOOL)], ("And", b, lt)), ("LE", ("Plus", x, y), ("lit", 0, INT)), ("And", a, ("Not", a))]
     return targets, history
+
+
+class TypedWorld(World):
+    """constructions go through the interpreted type checker, as create_node does: ill-typed ones raise"""
+
+    def __init__(self, *a, **k):
+        World.__init__(self, *a, **k)
+        self.typecheck = True
 
 
 def _hist_job(job):
@@ -180,6 +190,15 @@ def _hist_job(job):
             w.app("And", w.symbol("x", ("INT",)), w.symbol("a", ("BOOL",)))
         except AbsRaise:
             pass
+        # a substitution that fails half-way (the rebuilt term is ill-typed), handled by the caller; either conjunct first
+        xs, ys, zs, rs_ = w.symbol("x", ("INT",)), w.symbol("y", ("INT",)), w.symbol("z", ("INT",)), w.symbol("rr", ("REAL",))
+        c1 = w.app("LT", w.app("Plus", ys, w.int_const(1)), zs)
+        c2 = w.app("LT", w.int_const(0), xs)
+        for hf in (w.app("And", c1, c2), w.app("And", c2, c1), w.app("Or", c2, w.app("Not", c1))):
+            try:
+                it.call(it.getattr(hf, "substitute"), [{xs: w.int_const(5), ys: rs_}])
+            except AbsRaise:
+                pass
         for i in range(12):
             w.app("Or", w.symbol("u%d" % i, ("BOOL",)), w.symbol("a", ("BOOL",)))
         f = proc.build_shape(w, shape.t)
@@ -193,7 +212,7 @@ def _hist_job(job):
         return out
 
     ph = proc.run_proc(dummy, call_hist, post=lambda w, f, v, facts: proc.ProcResult(shape, "valid", v), services="full", max_paths=8,
-                       interp_kwargs={"max_steps": 12000000})
+                       interp_kwargs={"max_steps": 12000000}, world_cls=TypedWorld)
     results = []
     if len(ph) != 1 or ph[0].kind != "valid":
         why = "%s %s" % (ph[0].kind, str(ph[0].detail)[:200])
@@ -205,7 +224,8 @@ def _hist_job(job):
         def call_fresh(w, it, f_, fn=fn):
             r = apply(fn, w, it, proc.build_shape(w, shape.t))
             return (r[0], ac_sig(w, r[1]) if r[0] == "ret" else r[1])
-        pf = proc.run_proc(dummy, call_fresh, post=lambda w, f, v, facts: proc.ProcResult(shape, "valid", v), services="full", max_paths=8)
+        pf = proc.run_proc(dummy, call_fresh, post=lambda w, f, v, facts: proc.ProcResult(shape, "valid", v), services="full", max_paths=8,
+                           world_cls=TypedWorld)
         if len(pf) != 1 or pf[0].kind != "valid":
             results.append((svc, repr(shape), "unsupported", "%s %s" % (pf[0].kind, str(pf[0].detail)[:200])))
             continue
